@@ -43,6 +43,10 @@ class Intrinsics:
         if isinstance(t, ExtV):
             n = t.name
             short = n.split('.')[-1]
+            if isinstance(v, SObj) and v.cls is not None and n in P.index.external_bases(v.cls):
+                return True       # stand-in class deriving from the external class (e.g. spec.c06.PyUSub(ast.USub))
+            if type(v).__name__ == 'FreeCons':
+                return v.name == n
             if n in ('builtins.int',):
                 return is_intlike(v) or (isinstance(v, EnumV) and self._is_intenum(P, v))
             if n == 'builtins.bool':
@@ -116,6 +120,10 @@ class Intrinsics:
         hook = self.ex.external_contract(name)
         if hook is not None:
             return hook(P, args, kwargs)
+        if name.startswith('ast.') and name[4:5].isupper() and not args:
+            # Python `ast` node constructor with keyword fields: an opaque free constructor
+            from .strings import FreeCons
+            return FreeCons(name, dict(kwargs))
         raise Unsupported(f'external call {name}')
 
     def call_bound(self, P, name, recv, args, kwargs):
@@ -814,3 +822,9 @@ class Intrinsics:
         if is_sym_real(x):
             return self.ex.frac_part(P, x, 'numerator')
         raise Unsupported(f'frac_num({x!r})')
+
+    def s_cons_name(self, P, v):
+        """speclib.cons_name: class name of a (Python ast) node"""
+        if type(v).__name__ == 'FreeCons':
+            return v.name.split('.')[-1]
+        return self.s_cls_name(P, v)
